@@ -48,7 +48,7 @@ CLAIMED = {
  "C07": ("conversion monitor over recorded histories out1=convert(doc), out2=convert(out1), out3=convert(out2): byte equality and empty checkpicosvg; known mechanisms (late pruning, defs insertion order) recognised by predicates over the recorded pipeline stage and the diff",
          "Generated mixed and cleanup-ordering documents and the tests/ corpus at ndigits 0,1,3,6 are converted three times. Held-on-observed.",
          "Byte comparison of SVG.tostring(); first-pass exceptions are not judged.", "3/C07"),
- "C08": ("conversion monitor: ids unique, every url(#) resolves to a gradient in defs, every gradient used - checked on each converted document from sharing-heavy generated sources (a stop at the library's own final gate with "reuses id" on a source with unique ids counts as an introduced duplicate); stage recorder attributes orphaned gradients to late pruning",
+ "C08": ("conversion monitor: ids unique, every url(#) resolves to a gradient in defs, every gradient used - checked on each converted document from sharing-heavy generated sources (a stop at the library's own final gate with a reuses-id report on a source with unique ids counts as an introduced duplicate); stage recorder attributes orphaned gradients to late pruning",
          "Documents with shared ids, many instances, stroked id'd shapes, shared gradients and colliding generated names are converted and their reference graph checked. Held-on-observed.",
          "Only sources whose references resolve are generated.", "3/C08"),
  "C14": ("differential conversion monitor over pairs (D, N(D)) with generated noise insertion at arbitrary tree positions and noise removal on real files; outputs compared by a canonical form that abstracts gradient ids (by content), defs order and 3e-5 relative numeric slack; both-raise counts as equal",
